@@ -474,6 +474,16 @@ func (l *Lexer) readRawString() (string, bool) {
 				result.WriteByte('`')
 				continue
 			}
+			// Any other escape sequence is kept as-is. The escaped character is
+			// consumed here so that an escaped backslash does not escape what follows
+			result.WriteByte('\\')
+			l.ReadChar()
+			if l.atEOF() {
+				terminated = false
+				break
+			}
+			result.WriteByte(l.CurrentChar)
+			continue
 		}
 		if l.CurrentChar == '`' {
 			break
